@@ -628,6 +628,7 @@ func HTMLDoc(r *rand.Rand) Doc {
 // empty floats sit at the very top.
 func degenerateFloats(r *rand.Rand) string {
 	var sb strings.Builder
+	sb.WriteString("<!--gen:degenerate-floats-->")
 	if r.Intn(3) == 0 {
 		sb.WriteString("<style>@page { margin: 0 } html, body { margin: 0; padding: 0 }</style>")
 	}
@@ -677,7 +678,7 @@ func quoteStress(r *rand.Rand) string {
 		return strings.Join(p, " ")
 	}
 	var sb strings.Builder
-	sb.WriteString("<style>")
+	sb.WriteString("<!--gen:quote-stress--><style>")
 	for _, c := range []string{"qa", "qb", "qc"} {
 		sb.WriteString("." + c + "::before { content: " + list() + " } ." + c + "::after { content: " + list() + " } ." + c + " { quotes: " + Pick(r, []string{"auto", "none", "none", "\"<\" \">\"", "\"a\" \"b\" \"c\" \"d\"", "inherit"}) + " } ")
 	}
